@@ -537,6 +537,7 @@ def _loop_post(clip, res, state0, t1, eps):
         holds("no_attempt_no_time_advance", jnp.logical_or(stepped, _all([st.step_from.t == t0, st.step_from.num_steps == state0.step_from.num_steps]))),
         holds("one_accepted_attempt_advances_time", jnp.logical_or(jnp.logical_not(stepped), _all([st.step_from.t > t0, st.step_from.num_steps == state0.step_from.num_steps + 1.0]))),
         holds("interpolation_between_its_two_states", jnp.logical_or(jnp.logical_not(after), _all([lo <= t1, t1 <= st.step_from.t]))),
+        holds("without_attempt_controller_and_proposal_untouched", jnp.logical_or(stepped, _all([st.dt == state0.dt, jnp.all(st.control == state0.control), jnp.all(st.error_step_from == state0.error_step_from)]))),
     ]
     if clip:
         cl.append(holds("clipped_step_not_beyond_checkpoint", jnp.logical_or(jnp.logical_not(stepped), st.step_from.t <= t1)))
